@@ -37,8 +37,20 @@ def run(ctx):
         ok = len(pdf) == 1
         if ok:
             sl, org, _ = backward_direct(b, op_local(b.blocks[pdf[0]]["term"]["args"][0]))
-            ok = any(o[0] == "call" and call_matches(o[2], r"helpers::abs_path") for o in org)
+            ok = any(o[0] == "call" and call_matches(o[2], r"helpers::abs_path|std::path::Path::join|std::fs::canonicalize|std::path::Path::canonicalize") for o in org)
         ctx.ob("R13.1", "%s|iterates-possible_do_files(abs_path)" % b.key, ok, where=b.span, detail="candidates come from possible_do_files(abs_path(..))")
+    # ---- R13.9 (F-AB): the two consumers agree on *which directory* a spelling means
+    ctx.rule("R13.9", "redo-whichdo resolves symbolic links in the directory part of its argument with the normaliser the builder's record lookup uses (state::relpath -> realdirpath) before enumerating candidates: for `link/../x` both must look in the directory the kernel would")
+    wba = BA.of(W)
+    pdfw = wba.calls(r"paths::possible_do_files")
+    if pdfw:
+        from core import taint as _taint
+        rt = _taint(W, src_call=lambda t_: call_matches(t_, r"state::relpath|state::realdirpath|std::fs::canonicalize|std::path::Path::canonicalize"), mode="derived")
+        a0 = op_local(W.blocks[pdfw[0]]["term"]["args"][0])
+        ok = a0 is not None and (a0 in rt or any(x in rt for x in wba.ref_chain(a0)))
+        ctx.ob("R13.9", "%s|enumerated-path-is-symlink-resolved" % W.key, ok, where=ctx.where(W, pdfw[0]),
+               detail="the path handed to possible_do_files derives from state::relpath (directory part canonicalised)" if ok else
+               "redo-whichdo cleans its argument only lexically: for link/../foo.x (link -> deep/er) it lists ./foo.x.do .. ./default.do while redo builds deep/foo.x with deep/default.do")
     makers = [b.key for b in anchors.bodies_constructing(prog, r"paths::DoFile")]
     ctx.ob("R13.1", "who-constructs-DoFile", bool(makers) and all(k.startswith(("paths::", "<paths::")) for k in makers), detail="DoFile constructed in: %s" % makers)
     callers = sorted(c for c in ctx.cg.callers_of("paths::possible_do_files") if c != "<indirect>")
@@ -154,7 +166,11 @@ def run(ctx):
                     c1 = _str_origin(SS, op_local(cand[1][1]))
                     pbb = cand[0]
             L = [None, None] + L
-        ctx.ob("R13.3", "%s|argv[0..2]=sh,-e" % SS.key, c0 == "sh" and c1 == "-e", where=ctx.where(SS, pbb), detail="argv[0]=%r argv[1]=%r" % (c0, c1))
+        # the option word may be chosen among several literals (a match on verbose / xtrace): each of them must keep `e`
+        opt_l = L[1] if len(arr[1]) == 6 else (op_local(prefix_arr[1][1]) if prefix_arr else None)
+        opts = _str_origins(SS, opt_l) if opt_l is not None else []
+        all_e = bool(opts) and all(re.fullmatch(r"-[A-Za-z]*e[A-Za-z]*", o_) for o_ in opts)
+        ctx.ob("R13.3", "%s|argv[0..2]=sh,-e" % SS.key, c0 == "sh" and all_e and (c1 == "-e" or len(opts) > 1), where=ctx.where(SS, pbb), detail="argv[0]=%r argv[1] in %r" % (c0, opts))
         ctx.ob("R13.3", "%s|argv[2]=do_file" % SS.key, L[2] in t_dofile and L[2] not in t_base, where=ctx.where(SS, bb), detail="argv[2] derives from df.do_file")
         ctx.ob("R13.3", "%s|$1=base_name+ext" % SS.key, L[3] in t_base and L[3] in t_ext and L[3] not in t_dodir, where=ctx.where(SS, bb), detail="$1 derives from df.base_name and df.ext (relative to the .do directory)")
         ctx.ob("R13.3", "%s|$2=base_name-without-ext" % SS.key, L[4] in t_base and L[4] not in t_ext, where=ctx.where(SS, bb), detail="$2 derives from df.base_name and not from df.ext" if L[4] in t_base and L[4] not in t_ext else "$2 includes the matched extension (or is not the base name)")
@@ -256,11 +272,31 @@ def _mode_origins(body, call_bb):
     return out
 
 
-def _str_origin(body, l):
-    """String literal a local OsString was built from (OsString::from("..."))."""
+def _str_origins(body, l):
+    """Every string literal a local OsString may have been built from (`OsString::from(x)` with x chosen by a match
+    among several literals gives them all), sorted."""
     sl, org, _ = backward_direct(body, l, depth=40)
     ba = BA.of(body)
+    out = set()
     for x in sl:
+        for d in ba.defs.get(x, []):
+            if d[0] == "stmt":
+                for c in __import__("core").rvalue_consts(d[3]):
+                    if "str" in c:
+                        out.add(c["str"])
+            if d[0] == "call":
+                for a in d[2]["args"]:
+                    s = const_str(a)
+                    if s is not None:
+                        out.add(s)
+    return sorted(out)
+
+
+def _str_origin(body, l):
+    """String literal a local OsString was built from (OsString::from("...")); the first in sorted order when several."""
+    sl, org, _ = backward_direct(body, l, depth=40)
+    ba = BA.of(body)
+    for x in sorted(sl):
         for d in ba.defs.get(x, []):
             if d[0] == "stmt":
                 for c in __import__("core").rvalue_consts(d[3]):
